@@ -136,7 +136,7 @@ def gen_concurrent(rng: random.Random):
 
 def gen_cases(tier, seed):
     rng = random.Random(f"c01-{seed}")
-    nseq, nconc = (260, 40) if tier == "quick" else (40000, 4000)
+    nseq, nconc = (1200, 160) if tier == "quick" else (40000, 4000)
     cases = []
     for i in range(nseq):
         s = rng.getrandbits(32)
